@@ -425,6 +425,14 @@ func (s *Store) bin(op Op, a, b *Term) *Term {
 		}
 		return s.BV(r, w)
 	}
+	// an operand that is a decision tree over constants (e.g. bits.Len64 of a symbol) combined with a
+	// constant: fold the constant into the leaves instead of keeping e.g. a division in the formula
+	if b.IsConst() && a.Op == OpIte && s.constTree(a, 80) {
+		return s.mapLeaves(a, func(l *Term) *Term { return s.bin(op, l, b) })
+	}
+	if a.IsConst() && b.Op == OpIte && s.constTree(b, 80) {
+		return s.mapLeaves(b, func(l *Term) *Term { return s.bin(op, a, l) })
+	}
 	// commutative normalisation: constant on the right
 	switch op {
 	case OpBvAdd, OpBvMul, OpBvAnd, OpBvOr, OpBvXor:
@@ -622,6 +630,27 @@ func (s *Store) cmp(op Op, a, b *Term) *Term {
 		}
 	}
 	return s.mk(op, 0, 0, "", a, b)
+}
+
+// constTree reports whether t is a constant or an ite whose else-spine (up to depth) has constant then-branches.
+func (s *Store) constTree(t *Term, depth int) bool {
+	for ; depth > 0; depth-- {
+		if t.IsConst() {
+			return true
+		}
+		if t.Op != OpIte || !t.A[1].IsConst() {
+			return false
+		}
+		t = t.A[2]
+	}
+	return false
+}
+
+func (s *Store) mapLeaves(t *Term, f func(*Term) *Term) *Term {
+	if t.IsConst() {
+		return f(t)
+	}
+	return s.Ite(t.A[0], f(t.A[1]), s.mapLeaves(t.A[2], f))
 }
 
 func (s *Store) Ult(a, b *Term) *Term { return s.cmp(OpBvUlt, a, b) }
